@@ -177,7 +177,7 @@ impl LangInterpreter for Italian {
                 }
             }
             "milione" if b.is_range_free(6, 8) => {
-                if b.len() != 1 || b.peek(1) != b"1" {
+                if b.peek(2) != b"1" {
                     Err(Error::NaN)
                 } else {
                     b.shift(6)
@@ -198,7 +198,7 @@ impl LangInterpreter for Italian {
                 }
             }
             "miliardo" => {
-                if b.len() != 1 || b.peek(1) != b"1" {
+                if b.peek(2) != b"1" {
                     Err(Error::NaN)
                 } else {
                     b.shift(9)
@@ -219,7 +219,7 @@ impl LangInterpreter for Italian {
                 }
             }
             "bilione" => {
-                if b.len() != 1 || b.peek(1) != b"1" {
+                if b.peek(2) != b"1" {
                     Err(Error::NaN)
                 } else {
                     b.shift(12)
